@@ -125,6 +125,11 @@ func execC05(r *sim.Run) {
 
 	// phase 0: k0 callbacks registered sequentially (callback slice reaches len/cap 0/0,1/1,2/2,3/4,4/4,5/8..)
 	k0 := r.Choose(10, "k0")
+	if r.Bool(1, 12, "manyListeners") {
+		// "with any number of callbacks already registered": long listener lists (past 16, 32, 64 entries)
+		k0 = 14 + r.Choose(60, "k0many")
+		r.Fault("long-listener-list")
+	}
 	for i := 0; i < k0; i++ {
 		register(newCb("pre"))
 	}
